@@ -12,7 +12,9 @@ import (
 	"math/rand"
 	"os"
 	"time"
+	"unicode/utf8"
 
+	"github.com/jrhy/mast"
 	"github.com/jrhy/s3db"
 	"github.com/jrhy/s3db/kv/crdt"
 )
@@ -336,6 +338,86 @@ func runL0(seed int64, n int, dir string) error {
 				stats["merge_values_panic"]++
 			}
 			emit("merge_values", in, out)
+		}
+		// --- node codec: marshalProto / unmarshalProto of a mast node
+		{
+			nk := g.r.Intn(5)
+			node := mast.Node{}
+			in, out := &tw{}, &tw{}
+			in.i(nk)
+			for k := 0; k < nk; k++ {
+				v := g.sval(false, false)
+				if v.tag == 'T' && !utf8.Valid(v.bs) {
+					v.tag = 'B' // protobuf refuses TEXT that is not UTF-8 (assumption of C08)
+				}
+				node.Key = append(node.Key, s3db.NewKey(v.goValue()))
+				in.sval(v)
+			}
+			in.i(nk)
+			for k := 0; k < nk; k++ {
+				v := mcval{md: g.lat(), has: true, row: g.row(g.r.Intn(4), g.r.Intn(2) == 0), prev: int64(g.r.Intn(3))}
+				if g.r.Intn(4) == 0 {
+					v.tomb = g.lat()
+					v.has = false
+				}
+				node.Value = append(node.Value, v.crdt())
+				in.mcval(v)
+			}
+			nl := nk + 1
+			if g.r.Intn(6) == 0 {
+				nl = g.r.Intn(4)
+			}
+			in.i(nl)
+			leaf := g.r.Intn(2) == 0
+			for k := 0; k < nl; k++ {
+				switch {
+				case leaf || g.r.Intn(3) == 0:
+					node.Link = append(node.Link, nil)
+					in.s("-")
+					stats["nodecodec_link_nil"]++
+				case g.r.Intn(40) == 0:
+					node.Link = append(node.Link, "") // never a real object name: the guard of the theorem
+					in.bytes(nil)
+					stats["nodecodec_link_emptyname"]++
+				default:
+					nm := []byte(fmt.Sprintf("n%d", g.r.Intn(1000)))
+					node.Link = append(node.Link, string(nm))
+					in.bytes(nm)
+					stats["nodecodec_link_name"]++
+				}
+			}
+			if catch(func() {
+				b, err := s3db.VerifMarshalNode(node)
+				if err != nil {
+					out.s("E")
+					return
+				}
+				var dec mast.Node
+				if err := s3db.VerifUnmarshalNode(b, &dec); err != nil {
+					out.s("E")
+					return
+				}
+				out.i(len(dec.Key))
+				for _, k := range dec.Key {
+					out.sval(svalOfProto(k.(*s3db.Key).SQLiteValue))
+				}
+				out.i(len(dec.Value))
+				for _, v := range dec.Value {
+					out.cvalRow(v.(crdt.Value))
+				}
+				out.i(len(dec.Link))
+				for _, l := range dec.Link {
+					if l == nil {
+						out.s("-")
+					} else {
+						out.bytes([]byte(l.(string)))
+					}
+				}
+			}) {
+				out = &tw{}
+				out.s("P")
+			}
+			emit("nodecodec", in, out)
 		}
 		// --- crdt.LastWriteWins (payload: opaque id)
 		{
